@@ -948,7 +948,7 @@ fn stmt_pool(thorough: bool) -> Vec<&'static str> {
         "if (a) { f(3); }", "while (a) { break; }", "{ }", "{ f(4); }", "int a = 1;", "return;", "loop { }", "const int A = 1;", "void g() { }",
         "{\"H\"}: interrupt[3]:", "times(3) { }", "do { } while (a);", "if (a) { } else { }",
     ];
-    if thorough { v.extend(["0:", "+0:", "{\"\"}: f(5);", "unless (a) break;", "int b;", "inline void h(int x) { return; }", "x++;", "{ l2: }", "+(a + 1):"]); }
+    if thorough { v.extend(["0:", "+0:", "{\"\"}: f(5);", "loop { unless (a) break; }", "int b;", "inline void h(int x) { return; }", "x++;", "{ l2: }", "+(a + 1):"]); }
     v
 }
 
@@ -979,7 +979,7 @@ fn gen_statements(g: &mut Gen, thorough: bool) {
         g.body("stmt:goto", &format!("if (a) goto l @ -{t};"));
         g.push("item:script-number", format!("script {t} s {{ }}\nscript -{t} t {{ }}\n"));
     }
-    for e in ["(2*3)", "x", "f(1)", "-1", "(-1)", "(a ? b : c)", "f(aaaaaaaaaaaaaaaaaaaa, bbbbbbbbbbbbbbbbbbbbbbb, cccccccccccccccccccccc)", "1.5", "\"s\"", "x++"] {
+    for e in ["(2*3)", "x", "f(1)", "-1", "(-1)", "(a ? b : c)", "f(aaaaaaaaaaaaaaaaaaaa, bbbbbbbbbbbbbbbbbbbbbbb, cccccccccccccccccccccc)", "f(aaaaaaaaaaaaaaaaaaaaaaaaaaaaaaaaaaaaaaaa, bbbbbbbbbbbbbbbbbbbbbbbbbbbbbbbbbbbbbbbb, cccccccccccccccccccccccccccccccccccccccc)", "1.5", "\"s\"", "x++"] {
         g.body("stmt:rel-time-expr", &format!("+{e}:\n    f();"));
         g.body("stmt:interrupt-expr", &format!("interrupt[{e}]:\n    f();"));
         g.body("stmt:interrupt-expr", &format!("f();\ninterrupt[{e}]:\ninterrupt[1 + {e}]:\n    f();"));
